@@ -56,6 +56,15 @@ _EXPRS = {
     "or_c_inner": ("and_v(or_c(pk(A),v:pk(B)),pk(C))", lambda a: (a["A"] or a["B"]) and a["C"]),
     "andor_deep": ("andor(pk(A),pk(B),and_v(v:pk(C),older(3)))", lambda a: (a["A"] and a["B"]) or (a["C"] and a["older"](3))),
     "or_i_older": ("or_i(and_v(v:pk(A),older(5)),pk(B))", lambda a: (a["A"] and a["older"](5)) or a["B"]),
+    "thresh_sln": ("thresh(2,pk(A),s:pk(B),sln:older(10))", lambda a: (a["A"] + a["B"] + a["older"](10)) >= 2),
+    "after_time": ("or_d(pk(A),and_v(v:pk(B),after(500000001)))", lambda a: a["A"] or (a["B"] and a["after"](500000001))),
+    "andor_locks": ("andor(pk(A),after(100),and_v(v:pk(B),older(10)))", lambda a: (a["A"] and a["after"](100)) or (a["B"] and a["older"](10))),
+    "or_i_two_afters": ("or_i(and_v(v:pk(A),after(10)),and_v(v:pk(B),after(500000010)))", lambda a: (a["A"] and a["after"](10)) or (a["B"] and a["after"](500000010))),
+    "sdv": ("and_b(pk(A),sdv:older(10))", lambda a: a["A"] and a["older"](10)),
+    "sjtv": ("thresh(1,pk(A),sjtv:pk(B))", lambda a: (a["A"] + a["B"]) >= 1),
+    "v_multi": ("and_v(v:multi(1,A,B),pk(C))", lambda a: (a["A"] or a["B"]) and a["C"]),
+    "andor_multi": ("andor(multi(2,A,B),older(3),pk(C))", lambda a: (a["A"] and a["B"] and a["older"](3)) or a["C"]),
+    "thresh_multi": ("thresh(2,multi(1,A,B),a:pk(C),sln:after(5))", lambda a: ((a["A"] or a["B"]) + a["C"] + a["after"](5)) >= 2),
 }
 
 
@@ -70,7 +79,7 @@ def _sig_for(k):
     return b"\x30\x06\x02\x01" + bytes([1 + "ABC".index(k)]) + b"\x02\x01\x01\x01"
 
 
-@ob("C15", "compiled_script_has_the_predicted_size_and_reads_back", quick=[dict(expr=e) for e in _EXPRS], bound="each of 33 expressions (every binary combinator, thresh, multi, pkh, wrappers a s c v t j n l u, "
+@ob("C15", "compiled_script_has_the_predicted_size_and_reads_back", quick=[dict(expr=e) for e in _EXPRS], bound="each of 42 expressions (every binary combinator, thresh, multi, pkh, wrappers a s c v t j n l u, "
     "timelocks, a hash) in the P2WSH context: the script is as long as predicted, reads back (from_script) to an expression that compiles to the same bytes and equals the original, "
     "and the text form re-parses to the same expression; concrete structure, so one path each",
     functions=["btclib.descriptors.miniscript.parse", "btclib.descriptors.miniscript.from_script", "btclib.descriptors.miniscript.Miniscript.script"], min_ok=1, timeout=300)
@@ -112,7 +121,7 @@ def _flags():
 
 
 @ob("C15", "satisfaction_exists_only_when_the_condition_holds_and_the_engine_accepts_it", quick=[dict(expr=e) for e in _EXPRS],
-    bound="each of the 33 expressions, with the availability of every key's signature and of the preimage symbolic booleans and the spending transaction's lock time (either side of the 500000000 "
+    bound="each of the 42 expressions, with the availability of every key's signature and of the preimage symbolic booleans and the spending transaction's lock time (either side of the 500000000 "
           "threshold) and sequence symbolic: when satisfy() answers, the expression's spending condition holds for what was available, the witness is within the predicted size and element bounds, "
           "and verify_input accepts the P2WSH spend under the standard flags; satisfy() refuses exactly when the condition does not hold (every expression here is sane, so a "
           "non-malleable satisfaction exists whenever any does)",
